@@ -31,7 +31,7 @@
    ReadSector or passed to Write (RHP2/RHP3 update-sector as patched by
    fixes/C02-update-sector-copy.patch). *)
 From HostdBase Require Import Base.
-From HostdStorage Require Import Model Lemmas Proofs Proofs2 DataModel DataLemmas DataProofs DataProofs2.
+From HostdStorage Require Import Model Lemmas Proofs Proofs2 DataModel DataLemmas DataProofs DataProofs2 DataProofs3.
 
 (* what VolumeManager.ReadSector returns *)
 Theorem c02_read_result_is_ReadSector : forall d r,
@@ -73,6 +73,40 @@ Theorem c02_lost_unchanged_otherwise : forall d o, dloss_op o = false ->
   mLost (mets (md (fst (dstep d o)))) = mLost (mets (md d)).
 Proof. exact dlost_unchanged. Qed.
 Print Assumptions c02_lost_unchanged_otherwise.
+
+(* What protects a sector between Write and the commit of its reference from PruneSectors is its
+   last-access time: a Write that returns nil — through the StoreFunc or through "exists" —
+   refreshes it, and a prune pass whose cutoff is older than that spares the sector. *)
+Theorem c02_ack_refreshes_last_access : forall d t r loc,
+  snd (dstep d (DReserve t r loc)) = OAck \/ snd (dstep d (DReserve t r loc)) = OPlaced ->
+  mem r (fresh (fst (dstep d (DReserve t r loc)))) = true.
+Proof. exact ack_fresh. Qed.
+Print Assumptions c02_ack_refreshes_last_access.
+
+Theorem c02_prune_spares_recently_accessed_partial : forall d r, dinv d -> mem r (fresh d) = true ->
+  (written d r -> written (fst (dstep d DPrune)) r) /\ (durable d r -> durable (fst (dstep d DPrune)) r).
+Proof. exact prune_spares_fresh. Qed.
+Print Assumptions c02_prune_spares_recently_accessed_partial.
+
+(* Sync, non-atomically (DSyncBegin / DFsync / DClear / DSyncEnd interleaved with writers and other
+   Syncs): because a volume's changed flag is deleted only after a successful fsync of that
+   volume, unsynced writer data always sits on a flagged volume; hence when no flag is set
+   everything written is durable and a Sync that finds no changed volume may return nil at once.
+   Hypothesis [flags_ok]: no data write lands on a volume between its fsync and the deletion of
+   its flag ... *)
+Theorem c02_sync_flags_partial : forall (size : N) (l : list dop), flags_ok (dinit size) l ->
+  let d := druns (dinit size) l in
+  flag_inv d /\ (changed d = [] -> forall v i, dcontent d v i = content d v i).
+Proof. exact sync_flags_runs. Qed.
+Print Assumptions c02_sync_flags_partial.
+
+(* ... without it the statement is false of the model (reviewer lead 3: the window between
+   vol.Sync() returning and delete(vm.changedVolumes, id); no call sits in that window, so this
+   one is a model-level witness only, not reproduced on the implementation). *)
+Theorem c02_sync_flag_race_refuted : exists size l,
+  let d := druns (dinit size) l in changed d = [] /\ exists v i, dcontent d v i <> content d v i.
+Proof. exact flag_race_refuted. Qed.
+Print Assumptions c02_sync_flag_race_refuted.
 
 (* The full statement is refuted without any crash: a second uploader is told "exists" while the
    first writer still holds the slot, syncs, commits its reference; the first writer's data write
